@@ -43,7 +43,7 @@ ASSUMPTIONS = [
 def budget(tier):
     if tier == 'thorough':
         return {'seeds': 60000, 'chunk': 100, 'wall_cap': 1500, 'extra': {'big': True}}
-    return {'seeds': 5000, 'chunk': 50, 'wall_cap': 240, 'extra': None}
+    return {'seeds': 12000, 'chunk': 100, 'wall_cap': 240, 'extra': None}
 
 
 # --------------------------------------------------------------------------------------------
